@@ -59,6 +59,11 @@ def run(ctx) -> None:
     r17_3(ctx)
     r17_4(ctx)
     r17_5(ctx)
+    # an awaitable handed to any_iter is awaited (its tokens reach the event loop), never iterated (C19's table)
+    from . import c19
+    from .common import Relabel
+    ctx.rule("R17.6", "any_iter awaits every awaitable it is given and iterates only what is not awaitable (R19.2, shared)")
+    c19.r19_2(Relabel(ctx, "R17.6"))
     ctx.floor("modules", 11)
     ctx.floor("await_sites", 45)
     ctx.floor("async_for_sites", 15)
